@@ -39,7 +39,16 @@ class ExonCorrector:
             corrected_exons += [(new_introns[-1][1] + 1, read_region[1])]
         else:
             corrected_exons = [(read_region[0], read_region[1])]
+        if not self.is_valid_exon_chain(corrected_exons):
+            # e.g. a splice site moved beyond the end of a terminal exon shorter than delta:
+            # a correction that does not yield sorted non-overlapping exons is discarded
+            return alignment_info.read_exons
         return corrected_exons
+
+    @staticmethod
+    def is_valid_exon_chain(exons):
+        return all(e[0] <= e[1] for e in exons) and \
+               all(exons[i][1] < exons[i + 1][0] for i in range(len(exons) - 1))
 
     def correct_fuzzy_junctions(self, alignment_info, read_assignment):
         intron_profile = alignment_info.combined_profile.read_intron_profile
